@@ -1584,7 +1584,8 @@ impl<'a> Model<'a> {
                 // the variable must be fielded on an open file
                 let mut found = false;
                 for h in self.handles.values_mut() {
-                    for (i, l) in h.field_lists.iter().enumerate() {
+                    // (the FIELD statement executed last wins)
+                    for (i, l) in h.field_lists.iter().enumerate().rev() {
                         if l.iter().any(|(_, n)| n.eq_ignore_ascii_case(var)) {
                             h.current_fields = Some(i);
                             found = true;
